@@ -15,12 +15,15 @@
 #define MAXE 520
 #define MAGIC 0x51157e1eu
 
+/* an element carries two embedded nodes so that it can sit on two lists at once (one per
+ * "offset class"); lists of class c link elements through node[c].  This makes the `off` member
+ * of the list object observable (swap between lists of different classes, concat refusal). */
 struct elem {
     uint32_t magic;
     int id, key;
-    int where;                  /* list index, -1 = free */
+    int where[2];               /* per class: list index, -1 = free */
     uint64_t pad0;
-    struct cstl_slist_node node;
+    struct cstl_slist_node node[2];
     uint64_t pad1;
 };
 
@@ -30,6 +33,9 @@ static struct cstl_slist L[MAXL];
 static struct elem *M[MAXL][MAXE];
 static int Mn[MAXL];
 static int lastkind[MAXL];      /* previous mutating op kind per list (coverage) */
+static int cls[MAXL];           /* offset class of each list */
+static int mixed;               /* scope uses both classes */
+#define OFF(c) (offsetof(struct elem, node) + (size_t)(c) * sizeof(struct cstl_slist_node))
 
 enum {
     K_PUSH_FRONT = 1, K_PUSH_BACK, K_INS_AFTER, K_ERASE_AFTER, K_POP_FRONT,
@@ -52,7 +58,7 @@ static struct elem *new_elem(int id, int key)
 {
     struct elem *e = vrt_alloc(sizeof(*e));
     memset(e, 0x5e, sizeof(*e));
-    e->magic = MAGIC; e->id = id; e->key = key; e->where = -1;
+    e->magic = MAGIC; e->id = id; e->key = key; e->where[0] = e->where[1] = -1;
     return e;
 }
 
@@ -68,11 +74,12 @@ static int cmp_key(const void *a, const void *b, void *p)
 static void st_create(int scope)
 {
     int i;
-    /* scope: bits 0-3 nlists, 4-7 nkeys, 8-19 npool */
-    nlists = scope & 15; nkeys = (scope >> 4) & 15; npool = (scope >> 8) & 0xfff;
+    /* scope: bits 0-3 nlists, 4-7 nkeys, 8-19 npool, bit 20: odd lists use the second node */
+    nlists = scope & 15; nkeys = (scope >> 4) & 15; npool = (scope >> 8) & 0xfff; mixed = (scope >> 20) & 1;
     for (i = 0; i < npool; i++) pool[i] = new_elem(i, i % nkeys);
     for (i = 0; i < nlists; i++) {
-        cstl_slist_init(&L[i], offsetof(struct elem, node));
+        cls[i] = mixed ? (i & 1) : 0;
+        cstl_slist_init(&L[i], OFF(cls[i]));
         Mn[i] = 0; lastkind[i] = 0;
     }
 }
@@ -82,11 +89,12 @@ static void st_destroy(void)
     for (i = 0; i < npool; i++) { vrt_free(pool[i]); pool[i] = NULL; }
 }
 #define SCOPE(nl, nk, np) ((nl) | (nk) << 4 | (np) << 8)
+#define SCOPE_MIXED (1 << 20)
 
-static struct elem *take_free(int key)
+static struct elem *take_free(int key, int c)
 {
     int i;
-    for (i = 0; i < npool; i++) if (pool[i]->where < 0 && pool[i]->key == key) return pool[i];
+    for (i = 0; i < npool; i++) if (pool[i]->where[c] < 0 && pool[i]->key == key) return pool[i];
     return NULL;
 }
 
@@ -144,25 +152,31 @@ static void clear_cb(void *e, void *p)
     int id;
     VRT_CHECK(p == NULL, "slist.clear.priv", "clear callback got priv %p", p);
     VRT_CHECK(x->magic == MAGIC, "slist.clear.non-element", "clear callback for a non-element / twice");
-    VRT_CHECK(x->where == clear_list, "slist.clear.non-member", "clear callback for element %d not in list %d", x->id, clear_list);
+    VRT_CHECK(x->where[cls[clear_list]] == clear_list, "slist.clear.non-member", "clear callback for element %d not in list %d", x->id, clear_list);
     id = x->id;
     clear_seen++;
-    memset(x, 0xa5, sizeof(*x));
-    vrt_free(x);
-    pool[id] = new_elem(id, id % nkeys);
+    if (x->where[!cls[clear_list]] >= 0) {
+        /* still linked into a list of the other class through its other node: only this node is dead */
+        memset(&x->node[cls[clear_list]], 0xa5, sizeof(x->node[0]));
+        x->where[cls[clear_list]] = -1;
+    } else {
+        memset(x, 0xa5, sizeof(*x));
+        vrt_free(x);
+        pool[id] = new_elem(id, id % nkeys);
+    }
     VRT_COUNT("clear.handed-over");
 }
 
 static void ins_model(int l, int at, struct elem *e)
 {
     memmove(&M[l][at + 1], &M[l][at], (Mn[l] - at) * sizeof(M[l][0]));
-    M[l][at] = e; Mn[l]++; e->where = l;
+    M[l][at] = e; Mn[l]++; e->where[cls[l]] = l;
 }
 static struct elem *del_model(int l, int at)
 {
     struct elem *e = M[l][at];
     memmove(&M[l][at], &M[l][at + 1], (Mn[l] - at - 1) * sizeof(M[l][0]));
-    Mn[l]--; e->where = -1;
+    Mn[l]--; e->where[cls[l]] = -1;
     return e;
 }
 
@@ -194,7 +208,7 @@ static int st_apply(uint32_t op, int audit)
     if (l1 >= nlists) return 0;
     switch (kind) {
     case K_PUSH_FRONT:
-        if ((e = take_free(key)) == NULL) return 0;
+        if ((e = take_free(key, cls[l1])) == NULL) return 0;
         vrt_state(Mn[l1] ? "nonempty" : "empty");
         VRT_OP3("slist.push_front", "l%ld e%ld(k%ld)", l1, e->id, key);
         cstl_slist_push_front(&L[l1], e);
@@ -202,7 +216,7 @@ static int st_apply(uint32_t op, int audit)
         VRT_COUNT("op.push_front");
         break;
     case K_PUSH_BACK:
-        if ((e = take_free(key)) == NULL) return 0;
+        if ((e = take_free(key, cls[l1])) == NULL) return 0;
         vrt_state(Mn[l1] ? "nonempty" : "empty");
         VRT_OP3("slist.push_back", "l%ld e%ld(k%ld)", l1, e->id, key);
         cstl_slist_push_back(&L[l1], e);
@@ -214,7 +228,7 @@ static int st_apply(uint32_t op, int audit)
                   "back() after push_back is not the pushed element (prev op %s)", kindname[lastkind[l1]]);
         break;
     case K_INS_AFTER:
-        if (pos >= Mn[l1] || (e = take_free(key)) == NULL) return 0;
+        if (pos >= Mn[l1] || (e = take_free(key, cls[l1])) == NULL) return 0;
         vrt_state(pos == Mn[l1] - 1 ? "after-last" : "inner");
         VRT_OP4("slist.insert_after", "l%ld after#%ld e%ld(k%ld)", l1, pos, e->id, key);
         cstl_slist_insert_after(&L[l1], M[l1][pos], e);
@@ -269,15 +283,15 @@ static int st_apply(uint32_t op, int audit)
         /* read the new order through the links, bounded by the reference length */
         gotn = 0;
         for (n = L[l1].h.n; n != NULL && gotn <= Mn[l1]; n = n->n)
-            got[gotn++] = (struct elem *)((char *)n - offsetof(struct elem, node));
+            got[gotn++] = (struct elem *)((char *)n - OFF(cls[l1]));
         VRT_CHECK(gotn == Mn[l1], "slist.sort.length", "sort changed the number of linked elements: %d vs %d", gotn, Mn[l1]);
         for (i = 0; i < gotn; i++) {
-            VRT_CHECK(got[i]->magic == MAGIC && got[i]->where == l1, "slist.sort.foreign-element",
+            VRT_CHECK(got[i]->magic == MAGIC && got[i]->where[cls[l1]] == l1, "slist.sort.foreign-element",
                       "element at %d after sort is not a member", i);
             VRT_CHECK(i == 0 || got[i - 1]->key <= got[i]->key, "slist.sort.unordered", "keys out of order at %d", i);
-            got[i]->where = -2;         /* mark seen: detects duplicates */
+            got[i]->where[cls[l1]] = -2;         /* mark seen: detects duplicates */
         }
-        for (i = 0; i < gotn; i++) got[i]->where = l1;
+        for (i = 0; i < gotn; i++) got[i]->where[cls[l1]] = l1;
         for (i = 0; i < Mn[l1]; i++) M[l1][i] = got[i];
         VRT_COUNT("op.sort");
         break;
@@ -287,8 +301,13 @@ static int st_apply(uint32_t op, int audit)
         vrt_state(Mn[l2] == 0 ? "src-empty" : Mn[l1] == 0 ? "dst-empty" : "both");
         VRT_OP2("slist.concat", "l%ld += l%ld", l1, l2);
         cstl_slist_concat(&L[l1], &L[l2]);
-        for (i = 0; i < Mn[l2]; i++) { M[l1][Mn[l1] + i] = M[l2][i]; M[l2][i]->where = l1; }
-        Mn[l1] += Mn[l2]; Mn[l2] = 0;
+        if (cls[l1] != cls[l2]) {
+            /* lists of different node offsets cannot be concatenated: the call changes nothing */
+            VRT_COUNT("op.concat.different-offsets-refused");
+        } else {
+            for (i = 0; i < Mn[l2]; i++) { M[l1][Mn[l1] + i] = M[l2][i]; M[l2][i]->where[cls[l1]] = l1; }
+            Mn[l1] += Mn[l2]; Mn[l2] = 0;
+        }
         lastkind[l2] = kind;
         VRT_COUNT("op.concat");
         break;
@@ -304,8 +323,10 @@ static int st_apply(uint32_t op, int audit)
         memcpy(M[l1], M[l2], Mn[l2] * sizeof(tmp[0]));
         memcpy(M[l2], tmp, tn * sizeof(tmp[0]));
         Mn[l1] = Mn[l2]; Mn[l2] = tn;
-        for (i = 0; i < Mn[l1]; i++) M[l1][i]->where = l1;
-        for (i = 0; i < Mn[l2]; i++) M[l2][i]->where = l2;
+        /* the list objects trade everything, including the node offset they use */
+        if (cls[l1] != cls[l2]) { int c = cls[l1]; cls[l1] = cls[l2]; cls[l2] = c; VRT_COUNT("op.swap.different-offsets"); }
+        for (i = 0; i < Mn[l1]; i++) M[l1][i]->where[cls[l1]] = l1;
+        for (i = 0; i < Mn[l2]; i++) M[l2][i]->where[cls[l2]] = l2;
         lastkind[l2] = kind;
         VRT_COUNT("op.swap");
         break;
@@ -350,7 +371,7 @@ static uint64_t st_sig(void)
     uint64_t h = 0x1234 + nlists;
     int l, i;
     for (l = 0; l < nlists; l++) {
-        h = vrt_mix(h, 0xfff0 + Mn[l]);
+        h = vrt_mix(h, 0xfff0 + Mn[l] + (cls[l] << 12));
         for (i = 0; i < Mn[l]; i++) h = vrt_mix(h, M[l][i]->key + 1);
     }
     return h;
@@ -382,13 +403,15 @@ static void st_probe(int pi)
 static struct vex model = { st_create, st_destroy, st_apply, st_sig, st_nontrivial, 0, NULL };
 
 /* ---- closure scopes ---- */
-struct cscope { int nl, nk, np, maxlen; uint64_t max_states; int max_depth; };
+struct cscope { int nl, nk, np, maxlen; uint64_t max_states; int max_depth; int mixed; };
 static const struct cscope quick_scopes[] = {
     { 1, 1, 5, 5, 200000, 40 },         /* one list, lengths 0..5, structure only */
     { 1, 2, 5, 5, 200000, 40 },         /* + two key values (sort) */
     { 2, 1, 5, 5, 200000, 40 },         /* two lists: concat/swap */
     { 2, 2, 4, 4, 200000, 40 },
     { 3, 1, 4, 4, 200000, 40 },
+    { 2, 1, 4, 4, 200000, 40, 1 },      /* two lists linking through different nodes of the same elements */
+    { 3, 2, 3, 3, 200000, 40, 1 },
 };
 static const struct cscope thorough_scopes[] = {
     { 1, 1, 6, 6, 2000000, 60 },
@@ -397,6 +420,8 @@ static const struct cscope thorough_scopes[] = {
     { 3, 2, 5, 5, 2000000, 60 },
     { 3, 1, 6, 6, 2000000, 60 },
     { 2, 3, 5, 5, 2000000, 60 },
+    { 2, 2, 5, 5, 2000000, 60, 1 },
+    { 3, 1, 5, 5, 2000000, 60, 1 },
 };
 static const struct cscope *scopes;
 static int nscopes;
@@ -432,11 +457,11 @@ static void run_closure(int ci)
     uint32_t al[512];
     int n = build_alphabet(s, al);
     struct vex_result r;
-    vrt_case_note("closure nlists=%d keys=%d pool=%d alphabet=%d%s", s->nl, s->nk, s->np, n,
-                  is_clear_mode ? " +clear probe in every state" : "");
+    vrt_case_note("closure nlists=%d keys=%d pool=%d alphabet=%d%s%s", s->nl, s->nk, s->np, n,
+                  s->mixed ? " mixed-node-offsets" : "", is_clear_mode ? " +clear probe in every state" : "");
     model.nprobes = is_clear_mode ? 1 : 0;
     model.probe = st_probe;
-    vex_closure(&model, SCOPE(s->nl, s->nk, s->np), al, n, s->max_states, s->max_depth, &r);
+    vex_closure(&model, SCOPE(s->nl, s->nk, s->np) | (s->mixed ? SCOPE_MIXED : 0), al, n, s->max_states, s->max_depth, &r);
     VRT_COUNT_N("closure.states", r.states);
     VRT_COUNT_N("closure.transitions", r.transitions);
     VRT_COUNT_N("closure.replayed-ops", r.applied);
@@ -456,7 +481,7 @@ static void run_random(uint64_t idx)
     np = (idx % 4 == 0) ? 400 + vrt_below(&g, 112) : 4 + vrt_below(&g, 40);
     nops = vrt_thorough ? 6000 : 1500;
     vrt_case_note("random nlists=%d keys=%d pool=%d ops=%d", nl, nk, np, nops);
-    st_create(SCOPE(nl, nk, np));
+    st_create(SCOPE(nl, nk, np) | (nl > 1 && idx % 3 == 1 ? SCOPE_MIXED : 0));
     for (i = 0; i < nops; i++) {
         uint32_t op;
         int l = vrt_below(&g, nl), l2 = vrt_below(&g, nl), k = vrt_below(&g, nk);
